@@ -277,6 +277,17 @@ func (c *EvalCtx) evalBinary(x *ast.BinaryExpr) Val {
 		return BoolV{tOr(c.boolOf(c.eval(x.X)), c.boolOf(c.eval(x.Y)))}
 	}
 	a, b := c.eval(x.X), c.eval(x.Y)
+	// address of a nested struct compared with a struct value: compare the values
+	if pa, ok := a.(PtrV); ok {
+		if _, isS := b.(StructV); isS {
+			a = fe.load(c.st, pa)
+		}
+	}
+	if pb, ok := b.(PtrV); ok {
+		if _, isS := a.(StructV); isS {
+			b = fe.load(c.st, pb)
+		}
+	}
 	switch x.Op {
 	case token.EQL:
 		return BoolV{fe.valEq(a, b)}
@@ -542,6 +553,9 @@ func (c *EvalCtx) evalCall(x *ast.CallExpr) Val {
 		if g.Sort == "Bool" {
 			return BoolV{sel}
 		}
+		if g.Lo != "" && c.bound == nil {
+			fe.assume(tAnd(sx("<=", g.Lo, sel), sx("<=", sel, g.Hi)), "range of ghost field "+g.Name)
+		}
 		return IntV{sel}
 	}
 	if n, ok := fe.eng.voc.UFuns[fname]; ok {
@@ -554,6 +568,13 @@ func (c *EvalCtx) evalCall(x *ast.CallExpr) Val {
 		}
 		if n == 0 {
 			return IntV{sym(fname)}
+		}
+		if fname == "lim" && c.bound == nil {
+			// ghost-model invariant: a read through x never moves its position beyond lim(x)
+			if g, ok := fe.eng.voc.Ghost["pos"]; ok {
+				p := sx("select", fe.heapGet(c.st, "ghost.pos", g.Sort), sx(sym(g.Key), ts[0]))
+				fe.assume(sx("<=", p, sx("lim", ts[0])), "ghost invariant pos(x) <= lim(x)")
+			}
 		}
 		return IntV{sx(sym(fname), ts...)}
 	}
